@@ -68,7 +68,8 @@ Walk(c, steps, ops, b, got, failed, focus) ==
             ELSE Walk(c, <<>>, after, b2, got, TRUE, focus)                                   \* error line / wrong name / truncated / exception
 
 \* the abstract return value as the harness encodes it
-RetOf(c) == IF c.ret[1] \in {"bool", "int"} THEN <<c.ret[1], c.ret[2]>>
+RetOf(c) == IF c.ret[1] = "bool" THEN <<"bool", c.ret[2]>>
+            ELSE IF c.ret[1] = "int" THEN <<"int", c.ret[2] * 65536 + c.ret[3]>>       \* sent as two halves
             ELSE IF c.ret[1] = "pair" THEN <<"pair", c.ret[2], c.ret[3]>> ELSE <<c.ret[1]>>
 ExpectedRet(cl, got) ==
   LET v == SuccessValue(cl, got) IN IF v[1] = "text" THEN <<"text_of_reply">> ELSE v
@@ -86,7 +87,14 @@ BoardClause(cl, c, b, got) ==
          IF b.m1 = (c1 # 0) /\ b.m2 = (c2 # 0) /\ (c1 # 0 => b.res = c1) /\ (c1 = 0 /\ c2 # 0 => b.res = c2) THEN "ok" ELSE "board.motor_state_after_enable"
     [] OTHER -> "ok"
 
-\* one call; st = [board, allprobe]
+\* the board as driven by the bytes actually written in a call (each write is lexed by the harness into name / integer args / text arg)
+RECURSIVE OpsBoard(_, _, _)
+OpsBoard(ops, k, b) ==
+  IF k > Len(ops) THEN b
+  ELSE IF ops[k].k = "w" /\ ~ops[k].raised THEN OpsBoard(ops, k + 1, BoardAfter(b, [n |-> ops[k].n, v |-> Sq(ops[k].v), s |-> ops[k].sarg]))
+  ELSE OpsBoard(ops, k + 1, b)
+
+\* one call
 JudgeCall(c, dev, b, focus) ==
   LET cl == CallOf(c)
       ops == Sq(c.ops)
@@ -109,13 +117,23 @@ JudgeCall(c, dev, b, focus) ==
         ELSE IF F("C04") /\ RetOf(c) \notin FailSet(cl.m) THEN R("latch.dead_call_returns_failure_value", b)
         ELSE IF F("C04") /\ c.err_before /\ ~c.err_set THEN R("latch.recorded_error_replaced", b)
         ELSE R("ok", b))
+  ELSE IF F("C04") THEN      \* inside a live call: once a request of the call has failed (the error is recorded) nothing more is transmitted
+       LET FailAt(k) == \/ (ops[k].k = "w" /\ ops[k].raised)
+                        \/ (ops[k].k = "r" /\ ops[k].kind \in {"err", "errnamed", "wrong", "trunc", "raise"})
+                        \/ (ops[k].k = "r" /\ ops[k].kind = "empty" /\ (k = Len(ops) \/ ops[k + 1].k = "w")) IN
+       IF cl.m \notin {"reboot", "bootload"} /\ \E k \in 1..Len(ops) : FailAt(k) /\ \E j \in (k + 1)..Len(ops) : ops[j].k = "w"
+       THEN R("latch.transmits_after_error_recorded", b) ELSE R("ok", b)
+  ELSE IF F("C15") THEN R("ok", b)
+  ELSE IF F("C16") THEN      \* the statement is about the board after calls that succeeded, whatever the object did to get there
+       LET b2 == OpsBoard(ops, 1, b)
+           okc == ~c.err_set /\ (FailSet(cl.m) = {Void} \/ RetOf(c) \notin FailSet(cl.m)) IN
+       IF okc /\ BoardClause(cl, c, b2, <<>>) # "ok" THEN R(BoardClause(cl, c, b2, <<>>), b2) ELSE R("ok", b2)
   ELSE LET w == Walk(cl, Program(cl), ops, b, <<>>, FALSE, focus) IN
        IF w.v # "ok" THEN R(w.v, w.board)
        ELSE IF w.failed THEN
             (IF F("C05") /\ RetOf(c) \notin FailSet(cl.m) THEN R("fault.failure_return_value", w.board)
              ELSE IF F("C05") /\ cl.m \notin {"reboot", "bootload"} /\ ~c.err_set THEN R("fault.failure_recorded_as_error", w.board)
              ELSE R("ok", w.board))
-       ELSE IF F("C16") /\ BoardClause(cl, c, w.board, w.got) # "ok" THEN R(BoardClause(cl, c, w.board, w.got), w.board)
        ELSE IF F("C05") /\ c.err_set THEN R("success.no_error_recorded", w.board)
        ELSE IF F("C05") /\ RetOf(c) # ExpectedRet(cl, w.got) THEN R("success.returns_reply_of_own_request", w.board)
        ELSE R("ok", w.board)
